@@ -1,10 +1,16 @@
 #!/bin/bash
-# Run every registered quick (or thorough) check in turn from /verif against /repo; one line per check.
+# Run every registered quick (or thorough) check in turn against /repo; one line per check.
+#   sweep.sh quick|thorough [ids...]      SWEEP_TRIAL=1: evidence goes to a scratch directory (a trial run, e.g. of the thorough
+#                                         tier while the committed evidence is the quick tier's)
 tier=${1:-quick}; shift
 ids=${@:-C01 C02 C03 C04 C05 C06 C07 C08 C09 C10 C11 C12 C13 C14 C15 C16 C17 C18 C19 C20}
-cd /verif
+here=$(cd "$(dirname "$0")/../.." && pwd)
+cd "$here"
+mkdir -p /var/tmp/vmc-scratch
+[ -n "$SWEEP_TRIAL" ] && export VMC_EVIDENCE_DIR=/var/tmp/vmc-scratch/trial-evidence-$tier
 for id in $ids; do
   t0=$(date +%s)
-  /venv/bin/python -m vmc.check $id --tier $tier > /var/tmp/vmc-scratch/sweep-$id.log 2>&1; rc=$?
-  echo "$id exit=$rc $(( $(date +%s) - t0 ))s $(grep -c '^VIOLATION' /var/tmp/vmc-scratch/sweep-$id.log) violations $(grep -c '^KNOWN-FINDING' /var/tmp/vmc-scratch/sweep-$id.log) known"
+  log=/var/tmp/vmc-scratch/sweep-$tier-$id.log
+  /venv/bin/python -m vmc.check $id --tier $tier > $log 2>&1; rc=$?
+  echo "$id exit=$rc $(( $(date +%s) - t0 ))s $(grep -c '^VIOLATION' $log) violations $(grep -c '^KNOWN-FINDING' $log) known"
 done
